@@ -308,6 +308,10 @@ class Interp1:
             return self.cond(e)
         if isinstance(e, ast.BinOp):
             l, r = self.ev(e.left), self.ev(e.right)
+            if isinstance(e.op, ast.Mult) and isinstance(l, list) and isinstance(r, Aff) and r.is_const():
+                return list(l) * r.c
+            if isinstance(e.op, ast.Mult) and isinstance(r, list) and isinstance(l, Aff) and l.is_const():
+                return list(r) * l.c
             if isinstance(e.op, ast.Add):
                 return l + r
             if isinstance(e.op, ast.Sub):
